@@ -600,6 +600,12 @@ where
             if inner.level != highest {
                 return Err(format!("level field {} but highest non-empty level {}", inner.level, highest));
             }
+            // the memory counter is the head plus every node at its own height
+            let expected = self.calculate_node_size(MAX_LEVEL)
+                + level0.iter().map(|n| self.calculate_node_size((**n).forward.len())).sum::<usize>();
+            if inner.memory_usage != expected {
+                return Err(format!("memory counter {} but the nodes add up to {}", inner.memory_usage, expected));
+            }
         }
         Ok(())
     }
@@ -608,10 +614,12 @@ where
     pub fn verif_shape(&self) -> String {
         let inner = self.inner.read().unwrap();
         let mut out = format!("level={} length={} index={} [", inner.level, inner.length, inner.key_index.len());
+        let mut accounted = self.calculate_node_size(MAX_LEVEL) as i64;
         unsafe {
             let mut current = inner.head;
             let mut n = 0usize;
             while let Some(next) = (&(*current).forward)[0] {
+                accounted += self.calculate_node_size((*next).forward.len()) as i64;
                 out.push_str(&format!("({:?} {:?} h={})", (*next).key, (*next).value, (*next).forward.len()));
                 current = next;
                 n += 1;
@@ -619,6 +627,8 @@ where
             }
         }
         out.push(']');
+        // how far the memory counter is from what the nodes add up to (0 unless the bookkeeping drifts)
+        out.push_str(&format!(" memdrift={}", inner.memory_usage as i64 - accounted));
         out
     }
 }
